@@ -251,6 +251,12 @@ static void run_dside(long idx)
         int const mt = vr_chance(&r, 1, 4); if (mt) ZSTD_CCtx_setParameter(c, ZSTD_c_nbWorkers, 2);
         size_t const m = V_MIN(n, (size_t)500000); size_t const cs = ZSTD_compress2(c, g_out, ZSTD_compressBound(m) < g_srcCap ? ZSTD_compressBound(m) : g_srcCap, g_src, m); (void)cs;
         { size_t const so = ZSTD_sizeof_CCtx(c); if (so < ca_live) v_viol("sizeof:CCtx-under-reports", "mt=%d sizeof=%zu held=%zu", mt, so, ca_live); v_stat("sizeof_checks", 1); }
+        /* the same relation along a history of frames on that context: worker count raised and lowered (pools grow, retired workers keep their slots), level and LDM changed */
+        {   char hist[160]; int ho = snprintf(hist, sizeof hist, "w%d", mt ? 2 : 0); int const steps = 1 + (int)vr_u(&r, 4);
+            for (int q = 0; q < steps; q++) { int const w = (int)vr_u(&r, 6); ZSTD_CCtx_setParameter(c, ZSTD_c_nbWorkers, w); ZSTD_CCtx_setParameter(c, ZSTD_c_compressionLevel, (int)vr_range(&r, 1, 9)); ZSTD_CCtx_setParameter(c, ZSTD_c_enableLongDistanceMatching, (int)vr_u(&r, 2));
+                ho += snprintf(hist + ho, sizeof hist - (size_t)ho, ",w%d", w);
+                size_t const m2 = V_MIN(n, (size_t)(100000 + vr_u(&r, 900000))); size_t const cs2 = ZSTD_compress2(c, g_out, ZSTD_compressBound(m2) < g_srcCap ? ZSTD_compressBound(m2) : g_srcCap, g_src, m2); (void)cs2;
+                size_t const so = ZSTD_sizeof_CCtx(c); if (so < ca_live) v_viol("sizeof:CCtx-under-reports", "after the nbWorkers history %s: sizeof=%zu held=%zu (short by %zu)", hist, so, ca_live, ca_live - so); v_stat("sizeof_checks", 1); v_stat("sizeof_history_steps", 1); } }
         ZSTD_freeCCtx(c);
         ca_live = 0; size_t const dl = 100 + vr_u(&r, 50000); ZSTD_CDict* cd = ZSTD_createCDict_advanced(g_src, dl, vr_chance(&r, 1, 2) ? ZSTD_dlm_byCopy : ZSTD_dlm_byRef, ZSTD_dct_auto, ZSTD_getCParams((int)vr_range(&r, 1, 19), 0, dl), CMEM);
         if (cd) { size_t const so = ZSTD_sizeof_CDict(cd); if (so < ca_live) v_viol("sizeof:CDict-under-reports", "sizeof=%zu held=%zu", so, ca_live); v_stat("sizeof_checks", 1); ZSTD_freeCDict(cd); }
